@@ -43,6 +43,9 @@ MUTS = {
                            "    threadcount--;\n    dsh_mutex_unlock(&threadcount_mutex);\n\n    return NULL;")],
     "m19-while-fix": [("if (opt->fanout == threadcount)", "while (opt->fanout == threadcount)")],
     "m20-while-le": [("if (opt->fanout == threadcount)", "while (opt->fanout <= threadcount)")],
+    # descriptor 0 taken for a failed connect (seeded C03-8): needs a run in which a connection gets number 0 (`lowfds`)
+    "m22-fd0-is-failure": [("    if (a->rcmd->fd == -1) {\n        result = DSH_FAILED;    /* connect failed */\n    } else if (_update_connect_state(a) != DSH_CANCELED) {\n\n        /* prep for poll call */",
+                            "    if (a->rcmd->fd <= 0) {\n        result = DSH_FAILED;    /* connect failed */\n    } else if (_update_connect_state(a) != DSH_CANCELED) {\n\n        /* prep for poll call */")],
 }
 ids = sys.argv[2:] or sorted(MUTS)
 for mid in ids:
